@@ -416,6 +416,8 @@ def file_case(case):
     sep = ',' if case['delim'] == ',' else '  '
     punit = case['punit']
     pconv = {'Pa': 1.0, 'bar': 1e5}[punit]
+    tunit = case.get('tunit', 'K')
+    tconv = {'K': 1.0, 'kK': 1e3}[tunit]            # the file lists kilokelvin: the profile is in kelvin all the same
     pp = ctrl_pressures('match' if case['cols'] != 'T' else 'match', n, P)
     for tname, ts in sorted(patterns(n).items()):
         path = os.path.join(d, 'tp_%s.dat' % tname)
@@ -424,19 +426,20 @@ def file_case(case):
                 f.write('# pressure temperature header\n' if sep != ',' else 'header,line\n')
             for p, t in zip(pp, ts):
                 if case['cols'] == 'T':
-                    f.write('%r\n' % t)
+                    f.write('%r\n' % (t / tconv))
                 elif case['cols'] == 'PT':
-                    f.write('%r%s%r\n' % (p / pconv, sep, t))
+                    f.write('%r%s%r\n' % (p / pconv, sep, t / tconv))
                 else:
-                    f.write('%r%s%r\n' % (t, sep, p / pconv))
-        kw = dict(filename=path, skiprows=case['skip'], temp_units='K', press_units=punit)
+                    f.write('%r%s%r\n' % (t / tconv, sep, p / pconv))
+        kw = dict(filename=path, skiprows=case['skip'], temp_units=tunit, press_units=punit)
         if case['cols'] == 'T':
             kw.update(temp_col=0)
         elif case['cols'] == 'PT':
             kw.update(temp_col=1, press_col=0, delimiter=case['delim'])
         else:
             kw.update(temp_col=0, press_col=1, delimiter=case['delim'])
-        tag = 'cols=%s/%s/nrows=%s/%s' % (case['cols'], punit, 'N' if n == N else ('<N' if n < N else '>N'), tclass(ts))
+        tag = 'cols=%s/%s%s/nrows=%s/%s' % (case['cols'], punit, '' if tunit == 'K' else '+' + tunit,
+                                            'N' if n == N else ('<N' if n < N else '>N'), tclass(ts))
         evaluate(r, 'file', tag, lambda: TemperatureFile(**kw), N, P, pl, list(ts), 'valid', tname=tname, kw=kw)
     import shutil
     shutil.rmtree(d, ignore_errors=True)      # workers are terminated without atexit: leave nothing behind
@@ -757,6 +760,9 @@ def explore(ctx):
                 for skip in (0, 1):
                     fil.append({'N': N, 'grid': g, 'nrows': nrows, 'cols': cols, 'delim': delim, 'punit': punit,
                                 'skip': skip})
+                    if skip == 0 and delim is None:
+                        fil.append({'N': N, 'grid': g, 'nrows': nrows, 'cols': cols, 'delim': delim, 'punit': punit,
+                                    'skip': skip, 'tunit': 'kK'})
     ctx.run_cases('file_case', fil, phase='file')
 
     rod = [{'N': N, 'grid': g, 'h': h} for N in ns for g in grids
